@@ -76,8 +76,7 @@ def packed_roles(loops, L_keys=None):
     if len(rl) >= 2:
         outer = rl[-2]
         if inner.lo.key() == outer.index.key():
-            if (outer.hi - 1).key() != L.key():
-                return None
+            # a different upper bound of the m loop is reported by the caller's coverage obligation
             return outer.index, lvar, L, (outer.lo, outer.hi)
         # abs(m) + 1 lower bounds are handled by the caller
     # a single loop (or one not tied to an enclosing m loop): the m = 0 row; the caller checks that l starts at m
